@@ -31,7 +31,7 @@ CONFIG = dict(
     min_nontrivial={"quick": 300, "thorough": 5000},
     nshards={"quick": 8, "thorough": 16},
     timeout={"quick": 600, "thorough": 3600},
-    required_counters=("files_checked", "cli_runs", "json_documents", "loader_threshold_checks", "order_table_cells"),
+    required_counters=("failing_inputs_checked", "files_checked", "cli_runs", "json_documents", "loader_threshold_checks", "order_table_cells"),
 )
 
 RANKS = ["LIKELY_SAFE", "POSSIBLY_UNSAFE", "SUSPICIOUS", "LIKELY_UNSAFE", "LIKELY_OVERTLY_MALICIOUS",
@@ -256,6 +256,83 @@ def check_file(ctx, mods, label, parts, opts):
             os.remove(path)
 
 
+def failing_inputs():
+    """Pickles that parse but on which symbolic interpretation raises half-way, with dangerous material around the
+    failing opcode (so that a query resumed after the failure would see a different, possibly harmless, program)."""
+    poison = [b"h\x07", b"g99\n", b"Ppid\n", b"K\x01Q", b"000", b"1", b"K\x01a", b"\x90", b"\x82\x01"]
+    out = []
+    for po in poison:
+        out.append(b"ccollections\nOrderedDict\nc__builtin__\neval\n" + po + b"0(S'1+1'\ntRNb.")
+        out.append(b"cos\nsystem\n" + po + b"0(S'echo'\ntR.")
+        out.append(b"]" + po + b"cos\nsystem\n(S'echo'\ntRa.")
+        out.append(b"cos\nsystem\n(S'echo'\ntR" + po + b".")
+        out.append(b"\x80\x04" + b"c__builtin__\nexec\n" + po + b"(S'1'\ntR0N.")
+    return out
+
+
+def check_failing(ctx, mods, data):
+    """All faces on an input whose analysis fails: asking again (same object or not) gives the same failure - never a
+    verdict, least of all a safe one."""
+    f, analysis, loader, cli, fickling, U = mods
+    agg = ctx.agg
+    key = h(b"failing|" + data)
+    try:
+        f.Pickled.load(data)
+    except Exception:
+        return            # does not even parse: nothing to ask twice
+    try:
+        analysis.check_safety(f.Pickled.load(data))
+        return            # analysable after all: not a member of this family
+    except RecursionError:
+        return
+    except Exception as e:
+        first = type(e).__name__
+    if not agg.case(key, True, {"label": "failing", "hex": data.hex()[:120], "first_outcome": first}):
+        return
+    w = {"label": "failing", "parts_hex": [data.hex()], "first_outcome": first}
+    path = os.path.join(ctx.scratch, "c10_failing.pkl")
+    with open(path, "wb") as fh:
+        fh.write(data)
+    p = f.Pickled.load(data)
+
+    def face(fn):
+        try:
+            r = fn()
+            return "value:" + (r.severity.name if hasattr(r, "severity") else repr(r)[:40])
+        except U:
+            return "UnsafeFileError"
+        except SystemExit as e:
+            return f"exit:{e.code}"
+        except RecursionError:
+            return "RecursionError"
+        except Exception as e:
+            return type(e).__name__
+
+    def cli_face():
+        with contextlib.redirect_stdout(io.StringIO()), contextlib.redirect_stderr(io.StringIO()):
+            return "rc:%s" % cli.main(["fickling", "--check-safety", "--json-output", os.path.join(ctx.scratch, "c10_f.json"), path])
+    try:
+        outcomes = [("same-object-1", face(lambda: analysis.check_safety(p))),
+                    ("same-object-2", face(lambda: analysis.check_safety(p))),
+                    ("same-object-properties", face(lambda: (p.properties, analysis.check_safety(p))[1])),
+                    ("same-object-3", face(lambda: analysis.check_safety(p))),
+                    ("is_likely_safe", face(lambda: fickling.is_likely_safe(path))),
+                    ("is_likely_safe-again", face(lambda: fickling.is_likely_safe(path))),
+                    ("loader", face(lambda: loader.load(io.BytesIO(data)))),
+                    ("cli", face(cli_face)), ("cli-again", face(cli_face)),
+                    ("fresh-object", face(lambda: analysis.check_safety(f.Pickled.load(data))))]
+    finally:
+        for pth in (path, os.path.join(ctx.scratch, "c10_f.json")):
+            if os.path.exists(pth):
+                os.remove(pth)
+    agg.count("failing_inputs_checked")
+    verdicts = [(n, o) for n, o in outcomes if o.startswith("value:") or o == "rc:0"]
+    if verdicts:
+        agg.violation("face:verdict-after-failed-analysis",
+                      f"analysis of these bytes fails ({first}), yet a later query answers {verdicts[:3]}",
+                      dict(w, outcomes=outcomes))
+
+
 def stacks(ctx):
     fams = sorted(FAMILIES)
     kmax = {"quick": 3, "thorough": 4}[ctx.tier]
@@ -311,6 +388,9 @@ def run_shard(ctx):
         order_table(ctx, mods[1])
     for label, parts, opts in stacks(ctx):
         check_file(ctx, mods, label, parts, opts)
+    for i, data in enumerate(failing_inputs()):
+        if i % ctx.nshards == ctx.shard:
+            check_failing(ctx, mods, data)
 
 
 def replay(ctx, payload):
